@@ -507,13 +507,7 @@ class RestartSim(pair.PairSim):
         return problems
 
     def wire_frames(self, label):
-        out = []
-        for (ev, cid, data, dropped) in self.writes.get(label, []):
-            if dropped:
-                continue
-            for fr in refframer.scan_frames(data):
-                out.append((ev, cid, refframer.fdict(fr), fr))
-        return out
+        return [(ev, cid, d, fr) for (ev, cid, d, fr, dropped) in self.frames_written(label) if not dropped]
 
     def judge(self):
         mech = "kill=" + (self.kill_ctx["kind"] if self.kill_ctx else "none") + f"/graceful={min(self.restarts, 2)}"
@@ -545,9 +539,8 @@ class RestartSim(pair.PairSim):
             # real (the Logout exchange itself apart): then a ResendRequest is the right reaction
             lost_for_real = False
             for label in ("A", "B"):
-                for (ev, cid, data, dropped) in self.writes.get(label, []):
-                    if ev > ev0 and cid == old_cid and any(
-                            refframer.fdict(fr).get("35") != "5" for fr in refframer.scan_frames(data)):
+                for (ev, cid, d, fr, dropped) in self.frames_written(label):
+                    if ev > ev0 and cid == old_cid and d.get("35") != "5":
                         lost_for_real = True
             for label in ("A", "B"):
                 if lost_for_real:
